@@ -1,0 +1,14 @@
+//go:build verif
+
+package uci
+
+import (
+	. "github.com/paulsonkoly/chess-3/chess"
+)
+
+// VerifTimeControl exposes the time allocation helpers for given clock values.
+// Verification hook, compiled only with -tags verif.
+func VerifTimeControl(wtime, btime, winc, binc, mtime int64, stm Color) (timed bool, soft, hard int64) {
+	tc := timeControl{wtime: wtime, btime: btime, winc: winc, binc: binc, mtime: mtime}
+	return tc.timedMode(stm), tc.softLimit(stm), tc.hardLimit(stm)
+}
